@@ -41,6 +41,8 @@ pub struct Solver {
 	pub cmd: String,
 	pub unknowns: u64,
 	pub hangs: u64,
+	/// definitional axioms (sqrt): asserted term -> the uninterpreted application it constrains
+	pub axioms: HashMap<T, T>,
 	rebuild_lines: Vec<String>,
 	pub prefer_standalone: bool,
 	pub standalone_runs: u64,
@@ -100,6 +102,7 @@ impl Solver {
 			cmd: cmd.to_string(),
 			unknowns: 0,
 			hangs: 0,
+			axioms: HashMap::new(),
 			rebuild_lines: Vec::new(),
 			prefer_standalone: false,
 			standalone_runs: 0,
@@ -499,7 +502,43 @@ impl Solver {
 		self.script_ex(tm, extra, false)
 	}
 	pub fn script_ex(&self, tm: &Terms, extra: &[(T, bool)], abstract_nl: bool) -> String {
-		let mut need: Vec<T> = self.pc.iter().map(|(t, _)| *t).collect();
+		// cone of influence: a definitional axiom (s >= 0 and s*s = x for s = sqrt(x)) is only included when
+		// its sqrt application occurs in the rest of the query. Dropping it otherwise is sound in both
+		// directions (it constrains a value nothing else mentions and a witness always exists) and keeps
+		// queries that do not involve the sqrt out of non-linear arithmetic.
+		let reach = |roots: &[T]| -> HashSet<T> {
+			let mut seen: HashSet<T> = HashSet::new();
+			let mut st: Vec<T> = roots.to_vec();
+			while let Some(x) = st.pop() {
+				if seen.insert(x) {
+					for c in tm.children(x) {
+						st.push(*c);
+					}
+				}
+			}
+			seen
+		};
+		let mut base: Vec<T> = self.pc.iter().map(|(t, _)| *t).filter(|t| !self.axioms.contains_key(t)).collect();
+		base.extend(extra.iter().map(|(t, _)| *t));
+		let mut cone = reach(&base);
+		let mut included: Vec<T> = Vec::new();
+		loop {
+			let mut changed = false;
+			for (ax, uf) in &self.axioms {
+				if !included.contains(ax) && cone.contains(uf) && self.pc.iter().any(|(t, _)| t == ax) {
+					included.push(*ax);
+					for x in reach(&[*ax]) {
+						cone.insert(x);
+					}
+					changed = true;
+				}
+			}
+			if !changed {
+				break;
+			}
+		}
+		let pc_used: Vec<T> = self.pc.iter().map(|(t, _)| *t).filter(|t| !self.axioms.contains_key(t) || included.contains(t)).collect();
+		let mut need: Vec<T> = pc_used.clone();
 		need.extend(extra.iter().map(|(t, _)| *t));
 		let mut seen = HashSet::new();
 		let mut order = Vec::new();
@@ -541,7 +580,7 @@ impl Solver {
 				_ => {}
 			}
 		}
-		for (t, _) in &self.pc {
+		for t in &pc_used {
 			s.push_str(&format!("(assert {})\n", tm.ref_smt(*t)));
 		}
 		for (t, w) in extra {
